@@ -415,3 +415,32 @@ func VP_POLY_divide() {
 	vpAssert(r.Zero() || r.Degree() < b.Degree(), "deg remainder < deg divisor")
 	vpCover("reached", true)
 }
+
+// VPRSEncodeSummary stands in for (*ReedSolomonEncoder).Encode where a pipeline harness cuts
+// there (assume side): the remainder of data * x^e modulo the generator polynomial
+// prod_{i<e} (x - alpha^(base+i)), computed with the reference product only. It is GF(2)-linear
+// in the data bits. Guarantee side: the RS-enc obligations of C17 run the real Encode.
+func VPRSEncodeSummary(rs *ReedSolomonEncoder, data []int, eccCount int) []int {
+	gf := rs.gf
+	m := VPLog2(gf.Size)
+	pp := gf.Size | gf.ALogTbl[m]
+	gen := []int{1}
+	for i := 0; i < eccCount; i++ {
+		root := VPPowRef(pp, m, gf.Base+i)
+		next := make([]int, len(gen)+1)
+		for j, c := range gen {
+			next[j] ^= c
+			next[j+1] ^= VPGFMulRef(pp, m, c, root)
+		}
+		gen = next
+	}
+	rem := make([]int, eccCount)
+	for _, d := range data {
+		fb := d ^ rem[0]
+		for j := 0; j < eccCount-1; j++ {
+			rem[j] = rem[j+1] ^ VPGFMulRef(pp, m, fb, gen[j+1])
+		}
+		rem[eccCount-1] = VPGFMulRef(pp, m, fb, gen[eccCount])
+	}
+	return rem
+}
